@@ -5,7 +5,7 @@ import "fmt"
 // C05 — no silent truncation: a transport fault yields whole messages, then an error.
 
 func init() {
-	register(&PropDef{ID: "C05", Num: 5, Gen: genC05, Oracle: oracleC05, Level: "fault_enumeration"})
+	register(&PropDef{ID: "C05", Num: 5, Gen: genC05, Oracle: oracleC05, Level: "fault_enumeration", Sweep: sweepC05, SweepN: 96})
 }
 
 var cutStyles = []int{fEOF, fEOFBytes, fErr, fErrBytes, fTimeout, fTimeoutBytes}
@@ -290,4 +290,44 @@ func checkSticky(run *Run, prop, who string, rt *Task) {
 		}
 	}
 	run.Obligations += n
+}
+
+// sweepC05: one script and read program per 96 runs; run k cuts it at the
+// k-th position of the list {every frame start, header end and frame end, each
+// -1/0/+1} (then uniformly spread offsets) in style k mod 6.
+func sweepC05(r *PRNG, k, S int) *Scenario {
+	scn := genC05(r, "thorough")
+	scn.Class = "cut-sweep"
+	l := &scn.Links[0]
+	realIsServer := l.Server != nil
+	segs, exps := ExpandScript(l.Script, realIsServer, scn.Seed)
+	total := 0
+	for _, s := range segs {
+		total += len(s.Data)
+	}
+	var pos []int
+	seen := map[int]bool{}
+	add := func(v int) {
+		if v >= 0 && v <= total && !seen[v] {
+			seen[v] = true
+			pos = append(pos, v)
+		}
+	}
+	for _, x := range exps {
+		for _, b := range append(append([]int{x.StartOff, x.EndOff}, x.FragEnds...), x.FragHdrEnds...) {
+			add(b)
+			add(b - 1)
+			add(b + 1)
+		}
+	}
+	off := 0
+	if k/6 < len(pos) {
+		off = pos[k/6]
+	} else if total > 0 {
+		off = (k * 7919) % (total + 1)
+	}
+	c := &scn.Net.Conns[0].Cuts[0]
+	c.Offset = int64(off)
+	c.Style = cutStyles[k%6]
+	return scn
 }
